@@ -60,6 +60,18 @@ def allelesCounts (rows : List (String × Seq)) (L : Nat) : Nat × Nat :=
   (((List.range L).map fun j => nbDistinct ((column rows j).filter plain)).sum,
    ((List.range L).filter fun j => (column rows j).any plain).length)
 
+/-- Shannon entropy (natural logarithm) of a site over the characters other than `*`, `.` (and `-` when gaps
+are removed): `− Σ p log p` over the characters present, taken in increasing order; NaN when no character
+is left; defined exactly for `0 ≤ site < L` -/
+def entropy (rows : List (String × Seq)) (L : Int) (site : Int) (removegaps : Bool) : Option Float :=
+  if 0 ≤ site ∧ site < L then
+    let col := (column rows site.toNat).filter fun s => s != 42 && s != 46 && (!removegaps || s != 45)
+    if col.length = 0 then some (0.0 / 0.0)
+    else some ((countTable id col).foldl (fun e p =>
+      let proba := Float.ofNat p.2 / Float.ofNat col.length
+      e - proba * Float.log proba) 0.0)
+  else none
+
 /-- the wildcard of an alphabet code (0 amino acids: `X`, 1 nucleotides: `N`, otherwise `.`) -/
 def wildcardOf (alphabet : Nat) : Byte := if alphabet = 0 then 88 else if alphabet = 1 then 78 else 46
 
